@@ -6,24 +6,26 @@ import vlib
 BLK = 4096
 NBLK = 4
 SIZE = BLK * NBLK
-META_FILES = ["Model", "Corr", "Proofs", "Fault"]
+META_FILES = ["Model", "Corr", "Proofs", "Fault", "Oracle"]
 
 # ------------------------------------------------------------------------------------------------ Coq build
 
 def ensure_meta_compiled():
     """The Meta files are compiled one by one (they may not yet be listed in _CoqProject)."""
     prev_new = False
+    newest = 0.0                        # the latest .vo among the files this one depends on (they form a chain)
     for f in META_FILES:
         v = os.path.join(vlib.COQ, "theories", "Meta", f + ".v")
         vo = v + "o"
         if not os.path.exists(v):
             continue
-        if prev_new or not os.path.exists(vo) or os.path.getmtime(vo) < os.path.getmtime(v):
+        if prev_new or not os.path.exists(vo) or os.path.getmtime(vo) < os.path.getmtime(v) or os.path.getmtime(vo) < newest:
             rc, out = vlib.sh(["coqc", "-Q", "theories", "Jiva", "-w", "-notation-overridden,-deprecated-hint-without-locality",
                                "theories/Meta/%s.v" % f], cwd=vlib.COQ, timeout=1500)
             if rc != 0:
                 return False, "theories/Meta/%s.v does not compile:\n%s" % (f, out[-2500:])
             prev_new = True
+        newest = max(newest, os.path.getmtime(vo))
     return True, ""
 
 
@@ -141,9 +143,22 @@ def bt(b):
 
 def op_json(o):
     """o: python dict with model-level arguments -> the harness's op"""
+    j = op_json0(o)
+    if o.get("blk"):
+        j["blocked"] = [name_str(tuple(tuple(x) if isinstance(x, list) else x for x in n)) for n in o["blk"]]
+    return j
+
+
+def blk_names(o):
+    return [tuple(tuple(x) if isinstance(x, list) else x for x in n) for n in (o.get("blk") or [])]
+
+
+def op_json0(o):
     k = o["op"]
     if k in ("create", "open", "close", "crash"):
         return dict(op=k)
+    if k == "replace":
+        return dict(op="replace", name=dname_str(tuple(o["d"])), source=dname_str(tuple(o["src"])))
     if k == "mode":
         return dict(op="mode", mode=o["mode"])
     if k == "write":
@@ -191,6 +206,8 @@ def op_term(o, now=0):
         return "OCheckpoint %s" % ("(Some (%s))" % dname_term(tuple(o["d"])) if o.get("d") else "None")
     if k == "rebuilding":
         return "ORebuilding %s" % bt(o["b"])
+    if k == "replace":
+        return "OReplace (%s) (%s)" % (dname_term(tuple(o["d"])), dname_term(tuple(o["src"])))
     if k == "crashin":
         return "OCrashIn %d (%s)" % (o["k"], op_term(o["inner"], now))
     raise ValueError(o)
@@ -203,8 +220,9 @@ def universe(ops, extra_heads=2):
     for o in ops:
         if o["op"] == "snap" and o["s"] not in snaps:
             snaps.append(o["s"])
-        d = o.get("d")
-        if d:
+        for d in [o.get("d"), o.get("src")] + [n[1] for n in blk_names(o) if len(n) > 1]:
+            if not d:
+                continue
             d = tuple(d)
             if d[0] == "s" and d[1] not in snaps:
                 snaps.append(d[1])
@@ -312,8 +330,9 @@ def case_term(ops, outobs, maxchain):
     now = now_of(outobs, tb)
     ot = [op_term(o, now) for o in ops]
     bt_ = [obs_term(ob, univ, tb) for ob in outobs]
-    return "mkcase (%s) [%s] [%s] [%s]" % (cfg_term(maxchain), "; ".join(dname_term(d) for d in univ),
-                                                             "; ".join(ot), ";\n ".join(bt_))
+    blks = "; ".join("[%s]" % "; ".join(name_term(n) for n in blk_names(o)) for o in ops)
+    return "mkcase (%s) [%s] [%s] [%s] [%s]" % (cfg_term(maxchain), "; ".join(dname_term(d) for d in univ),
+                                                "; ".join(ot), blks, ";\n ".join(bt_))
 
 
 # ------------------------------------------------------------------------------------------------ T1 run loop
@@ -377,6 +396,27 @@ class Gen:
         self.size = SIZE
         self.rebuilding = False
         self.removed = []               # snapshot ids removed from the chain in this session
+        self.block_rate = 0.07          # rate of operations made to fail by an obstacle
+        self.block_known = False        # also the three shapes of known findings (snapshot / resize / set-checkpoint at volume.meta.tmp)
+        self.replace_rate = 0.05        # rate of ReplaceDisk requests
+
+    def replace_op(self):
+        """ReplaceDisk(target, source): valid = a snapshot and its child snapshot (the coalesce path); invalid = unknown
+        source, target = head, target not in the chain.  (Not generated: source = head, source = target, a source that
+        is not the target's child: the code accepts them and destroys data; see the report.)"""
+        rng = self.rng
+        x = rng.random()
+        i = rng.randrange(0, len(self.chain) - 1)
+        src, tgt = self.chain[i], self.chain[i + 1]
+        if x < 0.45:
+            self.chain.remove(src)
+            self.removed.append(src)
+            return dict(op="replace", d=("s", tgt), src=("s", src))
+        if x < 0.75:
+            return dict(op="replace", d=("s", tgt), src=("s", 90 + rng.randint(0, 3)))        # unknown source: refused
+        if x < 0.9:
+            return dict(op="replace", d=("h", self.head), src=("s", src))                     # the head as target: refused
+        return dict(op="replace", d=("s", tgt), src=("o", 70 + rng.randint(0, 2)))            # a name that is no file
 
     def cr(self):
         self.next_cr += 1
@@ -408,9 +448,36 @@ class Gen:
             return ("h", self.head)                                   # the head itself
         return ("h", self.head + rng.randint(1, 2))
 
+    BLOCKABLE = ("snap", "revert", "resize", "checkpoint", "rebuilding", "close", "open")
+
     def step(self):
+        """one generator step; now and then the operation is made to FAIL by an obstacle at volume.meta.tmp (or at the
+        new head's .meta.tmp): a directory at that name, so that encodeToFile's open fails"""
+        snapshot = (self.open, self.mode, list(self.chain), list(self.offchain), self.head, self.size, self.rebuilding, list(self.removed))
+        ops = self.step0()
+        if len(ops) == 1 and ops[0]["op"] in self.BLOCKABLE and self.created and self.rng.random() < self.block_rate:
+            o = ops[0]
+            blk = [("voltmp",)]
+            if o["op"] in ("snap", "revert") and (self.rng.random() < 0.3 or (o["op"] == "snap" and not self.block_known)):
+                blk = [("metatmp", ("h", snapshot[4] + 1))]
+            if o["op"] in ("resize", "checkpoint") and not self.block_known:
+                return ops              # (known findings: the in-memory value is set before the write; dedicated histories only)
+            o["blk"] = blk
+            # the operation fails: the abstract state stays as it was (close: the replica stays open)
+            (self.open, self.mode, self.chain, self.offchain, self.head, self.size, self.rebuilding, self.removed) = snapshot
+            if o["op"] == "close":
+                # a Close that failed has closed the image files and left the mode CLOSED; the Server still holds the
+                # replica and accepts operations on it (a later ReplaceDisk / RemoveDiffDisk ends in logrus.Fatalf on the
+                # closed descriptors): the history goes on with the retry of the Close or with the death of the process
+                self.open = False
+                ops.append(dict(op="close" if self.rng.random() < 0.7 else "crash"))
+        return ops
+
+    def step0(self):
         rng = self.rng
         x = rng.random()
+        if self.open and self.mode == "RW" and len(self.chain) >= 2 and rng.random() < self.replace_rate:
+            return [self.replace_op()]
         if not self.open:
             if x < 0.75:
                 self.open = True
@@ -516,6 +583,7 @@ def fixed_cases():
     S = lambda s, u=False: dict(op="snap", s=s, user=u, cr=s)
     RO = [dict(op="close"), dict(op="open")]
     CR = [dict(op="crash"), dict(op="open")]
+    B = lambda o, n=("voltmp",): dict(o, blk=[n])
     return [
         dict(ops=P + RO),
         dict(ops=P + [W(1), S(1, True), W(2), S(2), W(3), S(3)] + RO + [dict(op="mode", mode="RW"), dict(op="rm", d=("s", 2))] + CR),
@@ -527,7 +595,28 @@ def fixed_cases():
         dict(ops=P + [S(1), dict(op="resize", size=2 * SIZE), dict(op="resize", size=SIZE), dict(op="checkpoint", d=("s", 1)),
                       dict(op="rebuilding", b=True), dict(op="rebuilding", b=True), dict(op="rebuilding", b=False)] + RO),
         dict(ops=P + [dict(op="mode", mode="WO"), S(1), dict(op="rm", d=("s", 1)), dict(op="prep", d=("s", 1)), W(1)] + RO),
-    ]
+        # ReplaceDisk: refused shapes, the wrong mode, then the coalesce path
+        dict(ops=P + [W(1), S(1), W(2), S(2), W(3), S(3), dict(op="replace", d=("s", 2), src=("s", 91)),
+                      dict(op="replace", d=("h", 3), src=("s", 2)), dict(op="mode", mode="WO"), dict(op="replace", d=("s", 1), src=("s", 2)),
+                      dict(op="mode", mode="RW"), dict(op="replace", d=("s", 1), src=("s", 2))] + RO),
+    ] + blocked_cases()
+
+
+def blocked_cases():
+    """every operation that rewrites metadata FAILS once (an obstacle at volume.meta.tmp / at the new head's .meta.tmp),
+    then the same process goes on: write, close, reopen, snapshot, close, reopen"""
+    P = [dict(op="create"), dict(op="open"), dict(op="mode", mode="RW")]
+    W = lambda t: dict(op="write", tok=t)
+    S = lambda s, u=False: dict(op="snap", s=s, user=u, cr=s)
+    RO = [dict(op="close"), dict(op="open")]
+    B = lambda o, n=("voltmp",): dict(o, blk=[n])
+    base = P + [W(1), S(1), W(2), S(2), W(3)]
+    kinds = [B(S(3)), B(S(3), ("metatmp", ("h", 3))), B(dict(op="revert", d=("s", 1), cr=5)),
+             B(dict(op="revert", d=("s", 1), cr=5), ("metatmp", ("h", 3))), B(dict(op="resize", size=2 * SIZE)),
+             B(dict(op="checkpoint", d=("s", 1))), B(dict(op="rebuilding", b=True)), B(dict(op="close"))]
+    out = [dict(ops=base + [t, W(4)] + RO + [dict(op="mode", mode="RW"), S(4), W(5)] + RO) for t in kinds]
+    out.append(dict(ops=base + [dict(op="close"), B(dict(op="open")), dict(op="open"), dict(op="mode", mode="RW"), S(4)] + RO))
+    return out
 
 
 def known_cases():
@@ -732,6 +821,9 @@ def strace_victim(victim, predir, rundir, markdir, opj, tracefile, inject=None, 
                 res["res"] = j["res"]
                 res["err"] = j.get("err", "")
                 res["actions"] = j.get("actions", 0)
+                for k in ("mem", "cres", "cerr", "conterr"):
+                    if k in j:
+                        res[k] = j[k]
             except ValueError:
                 pass
     return res
@@ -856,9 +948,14 @@ def run_vcases(ctx, metabin, victim, vcases, tag="v", fail=True, kill=True, work
         vc = vcases[i]
         key = "%s%d" % ("f" if en else "k", j)
         rd = os.path.join(vc["dir"], key)
-        r = strace_victim(victim, vc["predir"], rd, os.path.join(vc["dir"], "mk-" + key), vc["opj"],
+        shutil.rmtree(rd + ".atE", ignore_errors=True)
+        # a run with a failing call goes on after the operation: the directory is kept aside (<rd>.atE), the memory is
+        # observed, and a regular Close rewrites volume.meta from memory
+        opj = dict(vc["opj"], cont=True) if en else vc["opj"]
+        r = strace_victim(victim, vc["predir"], rd, os.path.join(vc["dir"], "mk-" + key), opj,
                           os.path.join(vc["dir"], key + ".trace"), inject=inj)
-        return dict(case=i, j=j, mi=mi, errno=en, res=r, dir=rd, inject=inj)
+        cont = bool(en) and os.path.isdir(rd + ".atE") and "mem" in r and not r.get("conterr")
+        return dict(case=i, j=j, mi=mi, errno=en, res=r, dir=(rd + ".atE") if cont else rd, dir2=rd if cont else None, inject=inj)
 
     with cf.ThreadPoolExecutor(max_workers=workers) as ex:
         runs = list(ex.map(faulty, jobs))
@@ -866,7 +963,13 @@ def run_vcases(ctx, metabin, victim, vcases, tag="v", fail=True, kill=True, work
     insp = [dict(id=k, inspect=r["dir"]) for k, r in enumerate(runs)]
     for i, vc in enumerate(vcases):
         insp.append(dict(id=len(runs) + i, inspect=os.path.join(vc["dir"], "full")))
+    conts = [k for k, r in enumerate(runs) if r["dir2"]]
+    base2 = len(insp)
+    for n, k in enumerate(conts):
+        insp.append(dict(id=base2 + n, inspect=runs[k]["dir2"]))
     io = vlib.run_harness(ctx, metabin, insp, tag=tag + "insp", workers=8, timeout=1800)
+    for n, k in enumerate(conts):
+        runs[k]["obs2"] = io[base2 + n]["obs"]
     for k, r in enumerate(runs):
         r["obs"] = io[k]["obs"]
         results[r["case"]]["runs"].append(r)
@@ -907,13 +1010,35 @@ def eval_vcases(ctx, vcases, results, tag="ve"):
                                                        "(Some %s)" % r["errno"] if r["errno"] else "None", cls, dterm, oterm))
         defs = "Definition v := %s.\nDefinition ipre := %s.\nDefinition ipost := %s.\nDefinition xs := [\n%s\n].\n" % (
             vc["term"], ipre, ipost, ";\n".join(xs))
+        # the runs that went on: memory + directory when the operation returned, Close, directory after, reopen
+        cruns = [r for r in info["runs"] if r.get("obs2")]
+        ys = []
+        for r in cruns:
+            mem = dict(r["res"]["mem"])
+            mem["res"] = r["res"]["res"] if r["res"]["res"] in ("ok", "err") else "died"
+            mem["actions"] = r["res"].get("actions", 0)
+            mem["dir"] = r["obs"][0]["dir"]
+            mem["counter"] = r["obs"][0].get("counter", -1)
+            d2, o2 = reopen_term(r["obs2"], univ, tb)
+            ys.append("mkvcrun %d %s %s (%s) %s (%s) (%s)" % (
+                r["mi"] if r["mi"] is not None else 0, r["errno"], {"ok": "COk", "err": "CErr"}.get(r["res"]["res"], "CDied"),
+                obs_term(mem, univ, tb), {"ok": "COk", "err": "CErr"}.get(r["res"].get("cres"), "CDied"), d2, o2))
+        defs += "Definition ys := [\n%s\n].\n" % ";\n".join(ys)
         if info["trace_ok"]:
-            vals = vlib.coq_eval(ctx, "%s_%d" % (tag, i), ["Meta.Model", "Meta.Corr"], defs, ["check_vcase v ipre ipost xs"])
+            vals = vlib.coq_eval(ctx, "%s_%d" % (tag, i), ["Meta.Model", "Meta.Corr"], defs,
+                                 ["check_vcase v ipre ipost xs", "check_vconts v ipre ipost ys"])
             rows = vlib.parse_coq_list(vals[0])
             for r, row in zip(info["runs"], rows):
                 f = vlib.flat(row)
                 r.update(ddiff=f[1], odiff=f[2], res_agree=f[3], oracle=f[4], strict=f[5], mside=f[6], iside=f[7])
-        else:
+            for r, row in zip(cruns, vlib.parse_coq_list(vals[1])):
+                f = vlib.flat(row)
+                r.update(c_memdiff=f[1], c_res_agree=f[2], c_ddiff=f[3], c_odiff=f[4], c_oracle=f[5])
+        elif ys:
+            vals = vlib.coq_eval(ctx, "%s_%dc" % (tag, i), ["Meta.Model", "Meta.Corr"], defs, ["cont_oracle_only ipre ipost ys"])
+            for r, row in zip(cruns, vlib.parse_coq_list(vals[0])):
+                r.update(c_memdiff=None, c_res_agree=None, c_ddiff=None, c_odiff=None, c_oracle=row)
+        if not info["trace_ok"]:
             # the operation's system calls differ from the model's: the model cannot be aligned call by call, but the
             # oracles are predicates on the implementation's own observations
             vals = vlib.coq_eval(ctx, "%s_%d" % (tag, i), ["Meta.Model", "Meta.Corr"], defs, ["oracle_only ipre ipost xs"])
